@@ -63,6 +63,19 @@ def timing_histories(rng, thorough):
             # the same across a clean restart between the failure and the retry, and with ALRM
             mk("R", [msg(i, 0, rc)], dict(oc), [("inject", 0), ("answer", "fifo"), ("termrestart",), ("nextdue", -1), ("nextdue", 0), ("answer", "fifo"), ("termrestart",)] + probe)
             mk("S", [msg(i, 0, rc)], dict(oc), [("inject", 0), ("answer", "fifo"), ("advance", 7), ("signal", "ALRM"), ("answer", "fifo"), ("signal", "ALRM"), ("answer", "lifo")] + probe[:6])
+            # ALRM with only ONE channel holding deferred messages (the other channel's retry queue never used, or used and drained):
+            # everything deferred is due at once all the same
+            if nz in (1, 3):
+                for v, dom in enumerate((b"local.test", b"remote.test")):
+                    i = len(hs)
+                    a = b"t%du@%s" % (i, dom)
+                    mk("U", [msg(i, 0, [a])], {a.decode(): "Z" * nz + "K", "ts%d@origin.test" % i: "K"},
+                       [("inject", 0), ("answer", "fifo"), ("advance", 7), ("signal", "ALRM"), ("answer", "fifo"), ("signal", "ALRM"), ("answer", "lifo")] + probe[:6])
+                    i = len(hs)
+                    other = b"t%dv0@%s" % (i, (b"remote.test", b"local.test")[v])
+                    a = b"t%dv1@%s" % (i, dom)
+                    mk("V", [msg(i, 0, [other]), msg(i, 1, [a])], {other.decode(): "K", a.decode(): "Z" * nz + "K", "ts%d@origin.test" % i: "K"},
+                       [("inject", 0), ("answer", "fifo"), ("inject", 1), ("answer", "fifo"), ("advance", 5), ("signal", "ALRM"), ("answer", "fifo"), ("advance", 3), ("signal", "ALRM"), ("answer", "fifo")] + probe[:6])
         for life in (0, 1, 100, 399, 400, 401, 3000):
             i = len(hs)
             rc = [b"t%dl@local.test" % i, b"t%dr@remote.test" % i]
